@@ -22,6 +22,12 @@ def main(argv=None) -> int:
     a = ap.parse_args(argv)
     from dst import proc
 
+    if a.replay and a.what == "C20":
+        # the generated part of the workload is a function of the batch seed recorded in the file
+        import json
+
+        with open(a.replay) as f:
+            os.environ["DST_GEN_SEED"] = str(json.load(f).get("gen_seed", 0))
     boot.load_apischema()
     try:
         if a.what == "C20":
